@@ -131,6 +131,7 @@ Proof.
     exact (gtr_remove_ref (setc s c _) (cref x)).
   - apply gtr_eq. apply (cf_cb_return gs); reflexivity.
   - destruct (Nat.eqb c 0); [constructor | apply gtr_cancel_root].
+  - destruct (watch_step_spec s c) as [->|[x [y [_ [-> _]]]]]; constructor.
 Qed.
 
 Lemma gtr_settle s : gtr (gs s) (gs (settle s)).
